@@ -11,12 +11,16 @@ the same for quotes that are already dual numbers (any log-derivative potential)
 (`C10_second_order_same`, `C10_second_order_cross`): the stored (half) second derivatives are
 `½·cross·(s² − s)/quote²` for one quote twice and `½·cross·s0·s1/(quote0·quote1)` for two different quotes —
 the matching second derivatives of `cross ∝ quote^s`.
-(That a cut exists for every quote of a tree — every edge of a tree is a bridge — is graph theory that is
-not restated; the cut is a hypothesis, like the potential `u` in C09.)
+NO HYPOTHESIS ON POTENTIALS OR CUTS (`C10_sensitivity_tree`; Proofs/TreePotential.lean, Proofs/FXTree.lean):
+whenever the first-order array is returned for `n − 1` non-zero plain-number quotes over `n` currencies, the
+value potential `u` and, for every quote, a 0/1 cut `σ` that it alone crosses EXIST (a tree admits every edge
+assignment as a coboundary; a potential whose only non-trivial edge is `q0` is two-valued on a connected
+graph), so every sensitivity is `+cross/quote`, `−cross/quote` or `0`.
 STATE MACHINE: naming, refused updates, rebuild after accepted updates, derivative-order switches.
 -/
 import RateslibModel.Proofs.FXInit
 import RateslibModel.Proofs.FXSens
+import RateslibModel.Proofs.FXTree
 import RateslibModel.Analysis.RealInst
 namespace Rateslib
 open Real
@@ -217,6 +221,27 @@ theorem C10_sensitivity (currencies : List String) (quotes : List (FXQuote ℝ))
       den (a1 i j) (fxVarName q0) = (σ i - σ j) * (a1 i j).real / f0 :=
   fx_sensitivity_cut currencies quotes u hu hval q0 f0 hf0 hf0u σ h0 hoth hsame a1 h1
 
+/-- FIRST-ORDER SENSITIVITIES ON A TREE OF PLAIN-NUMBER QUOTES, nothing assumed about potentials or cuts:
+whenever the first-order array is returned for `n − 1` non-zero plain-number quotes over `n` currencies, there
+are a non-vanishing `u` and, for the quote `q0`, a 0/1 cut `σ` with `σ a0 = 1`, `σ b0 = 0` such that every
+cross `i/j` has value `u i / u j` and sensitivity `(σ i − σ j) · cross / quote` to `fx_<q0>` — that is
+`+cross/quote`, `−cross/quote` or `0` (`C10_sensitivity_cases`). -/
+theorem C10_sensitivity_tree (currencies : List String) (quotes : List (FXQuote ℝ))
+    (hcount : quotes.length + 1 = currencies.length)
+    (hidx : ∀ q ∈ quotes, (pairIdx currencies q).1 < currencies.length ∧
+      (pairIdx currencies q).2 < currencies.length)
+    (hplain : ∀ q ∈ quotes, ∃ f, q.rate = .f64 f ∧ f ≠ 0)
+    (q0 : FXQuote ℝ) (hq0 : q0 ∈ quotes) (f0 : ℝ) (hf0 : q0.rate = .f64 f0)
+    (hsame : ∀ q ∈ quotes, fxVarName q = fxVarName q0 →
+      pairIdx currencies q = pairIdx currencies q0 ∧ q.rate = q0.rate)
+    (a1 : Nat → Nat → Dual ℝ) (h1 : createFxArray currencies quotes .one = some (.dual a1)) :
+    ∃ (u σ : Nat → ℝ), (∀ i, u i ≠ 0) ∧ (∀ i, i < currencies.length → σ i = 0 ∨ σ i = 1) ∧
+      σ (pairIdx currencies q0).1 = 1 ∧ σ (pairIdx currencies q0).2 = 0 ∧
+      ∀ i j, i < currencies.length → j < currencies.length →
+        (a1 i j).real = u i / u j ∧
+        den (a1 i j) (fxVarName q0) = (σ i - σ j) * (a1 i j).real / f0 :=
+  fx_sensitivity_tree currencies quotes hcount hidx hplain q0 hq0 f0 hf0 hsame a1 h1
+
 /-- the three cases of `C10_sensitivity` for a 0/1 cut, spelled out -/
 theorem C10_sensitivity_cases (cross f0 si sj : ℝ) (hi : si = 0 ∨ si = 1) (hj : sj = 0 ∨ sj = 1) :
     (si - sj) * cross / f0 = cross / f0 ∨ (si - sj) * cross / f0 = -(cross / f0) ∨
@@ -268,6 +293,44 @@ theorem C10_second_order_cross (currencies : List String) (quotes : List (FXQuot
         = 1 / 2 * (a2 i j).real * ((σ0 i - σ0 j) * (σ1 i - σ1 j)) / (f0 * f1) :=
   fx_sensitivity2_cross currencies quotes u hu hval q0 q1 f0 f1 hf0 hf1 hf0u hf1u hne σ0 σ1 h0 h1
     hoth0 hoth1 hsame0 hsame1 a2 h2
+
+/-- SECOND ORDER ON A TREE, one quote twice, nothing assumed about potentials or cuts. -/
+theorem C10_second_order_same_tree (currencies : List String) (quotes : List (FXQuote ℝ))
+    (hcount : quotes.length + 1 = currencies.length)
+    (hidx : ∀ q ∈ quotes, (pairIdx currencies q).1 < currencies.length ∧
+      (pairIdx currencies q).2 < currencies.length)
+    (hplain : ∀ q ∈ quotes, ∃ f, q.rate = .f64 f ∧ f ≠ 0)
+    (q0 : FXQuote ℝ) (hq0 : q0 ∈ quotes) (f0 : ℝ) (hf0 : q0.rate = .f64 f0)
+    (hsame : ∀ q ∈ quotes, fxVarName q = fxVarName q0 →
+      pairIdx currencies q = pairIdx currencies q0 ∧ q.rate = q0.rate)
+    (a2 : Nat → Nat → Dual2 ℝ) (h2 : createFxArray currencies quotes .two = some (.dual2 a2)) :
+    ∃ σ : Nat → ℝ, (∀ i, i < currencies.length → σ i = 0 ∨ σ i = 1) ∧
+      σ (pairIdx currencies q0).1 = 1 ∧ σ (pairIdx currencies q0).2 = 0 ∧
+      ∀ i j, i < currencies.length → j < currencies.length →
+        Dual2.den2 (a2 i j) (fxVarName q0) (fxVarName q0)
+          = 1 / 2 * (a2 i j).real * ((σ i - σ j) ^ 2 - (σ i - σ j)) / f0 ^ 2 :=
+  fx_sensitivity2_same_tree currencies quotes hcount hidx hplain q0 hq0 f0 hf0 hsame a2 h2
+
+/-- SECOND ORDER ON A TREE, two different quotes, nothing assumed about potentials or cuts. -/
+theorem C10_second_order_cross_tree (currencies : List String) (quotes : List (FXQuote ℝ))
+    (hcount : quotes.length + 1 = currencies.length)
+    (hidx : ∀ q ∈ quotes, (pairIdx currencies q).1 < currencies.length ∧
+      (pairIdx currencies q).2 < currencies.length)
+    (hplain : ∀ q ∈ quotes, ∃ f, q.rate = .f64 f ∧ f ≠ 0)
+    (q0 q1 : FXQuote ℝ) (hq0 : q0 ∈ quotes) (hq1 : q1 ∈ quotes) (f0 f1 : ℝ)
+    (hf0 : q0.rate = .f64 f0) (hf1 : q1.rate = .f64 f1) (hne : fxVarName q0 ≠ fxVarName q1)
+    (hsame0 : ∀ q ∈ quotes, fxVarName q = fxVarName q0 →
+      pairIdx currencies q = pairIdx currencies q0 ∧ q.rate = q0.rate)
+    (hsame1 : ∀ q ∈ quotes, fxVarName q = fxVarName q1 →
+      pairIdx currencies q = pairIdx currencies q1 ∧ q.rate = q1.rate)
+    (a2 : Nat → Nat → Dual2 ℝ) (h2 : createFxArray currencies quotes .two = some (.dual2 a2)) :
+    ∃ σ0 σ1 : Nat → ℝ, (∀ i, i < currencies.length → σ0 i = 0 ∨ σ0 i = 1) ∧
+      (∀ i, i < currencies.length → σ1 i = 0 ∨ σ1 i = 1) ∧
+      ∀ i j, i < currencies.length → j < currencies.length →
+        Dual2.den2 (a2 i j) (fxVarName q0) (fxVarName q1)
+          = 1 / 2 * (a2 i j).real * ((σ0 i - σ0 j) * (σ1 i - σ1 j)) / (f0 * f1) :=
+  fx_sensitivity2_cross_tree currencies quotes hcount hidx hplain q0 q1 hq0 hq1 f0 f1 hf0 hf1 hne
+    hsame0 hsame1 a2 h2
 
 end Sensitivities
 
